@@ -161,15 +161,15 @@ pub(super) fn socks5_udp_parse(b: &[u8]) -> Option<(String, u16, &[u8])> {
     Some((host, port, &b[3 + a.1..]))
 }
 
-struct AppResult {
-    sent: HashMap<(u16, u32), usize>,                // (target, seq) -> size
-    replies: HashMap<(u16, u32, u8), u32>,           // (target, seq, kind) -> count
-    problems: Vec<String>,
-    missing_by_size: HashMap<usize, (u32, u32)>,     // size -> (sent, answered)
+pub(super) struct AppResult {
+    pub sent: HashMap<(u16, u32), usize>,                // (target, seq) -> size
+    pub replies: HashMap<(u16, u32, u8), u32>,           // (target, seq, kind) -> count
+    pub problems: Vec<String>,
+    pub missing_by_size: HashMap<usize, (u32, u32)>,     // size -> (sent, answered)
 }
 
 /// One application socket: sends `plan` (target index, size) datagrams with a window of 8, collects replies.
-async fn run_app(nonce: u64, app: u16, client_port: u16, targets: Vec<(u16, u16, String)>, plan: Vec<(usize, usize)>, replies_per: usize, wait: Duration) -> AppResult {
+pub(super) async fn run_app(nonce: u64, app: u16, client_port: u16, targets: Vec<(u16, u16, String)>, plan: Vec<(usize, usize)>, replies_per: usize, wait: Duration) -> AppResult {
     let s = UdpSocket::bind("127.0.0.1:0").await.expect("bind");
     let client: SocketAddr = format!("127.0.0.1:{client_port}").parse().unwrap();
     let mut res = AppResult { sent: HashMap::new(), replies: HashMap::new(), problems: vec![], missing_by_size: HashMap::new() };
